@@ -306,6 +306,12 @@ def natural_run(tdgl, p, base_tmp=None):
 
     # content ids are resolved once all states are known (frame 0 is written before the
     # first update call, which is where the initial state is observed)
+    if not hashes:
+        # no update was ever called (zero-step run): the initial state is only visible as the first frame
+        first = next((e for e in events if e["ev"] == "save" and e.get("_hash")), None)
+        if first is not None:
+            hashes[first["_hash"]] = 0
+
     def resolve(fr):
         h = fr.pop("_hash", None)
         if h is not None:
